@@ -77,6 +77,13 @@ def stage_pipeline(i, rec, root):
     if sc['cmd'] in ('report', 'parse'):
         text = LEDGERS.get(fault, GOOD)
         inp = 'ledger.cgt'
+        inputs = [inp]
+        if sc['output'] == 'default2':
+            # two input files: the first line in one, the rest in the other; the default PDF path is then report.pdf
+            ls = text.splitlines(keepends=True)
+            open(os.path.join(d, 'first.cgt'), 'w').write(ls[0])
+            text = ''.join(ls[1:])
+            inputs = ['first.cgt', inp]
         if fault != 'missing_input':
             open(os.path.join(d, inp), 'w').write(text)
         args = [sc['cmd']]
@@ -93,7 +100,9 @@ def stage_pipeline(i, rec, root):
             args += ['--output', target]
         elif sc['output'] == 'default':
             target = 'ledger.pdf'
-        args += [inp]
+        elif sc['output'] == 'default2':
+            target = 'report.pdf'
+        args += inputs
     else:
         inp = 'tx.json'
         if fault != 'missing_input':
